@@ -35,6 +35,13 @@ def teardown(ctx):
 def gen(rng, ctx):
     big = ctx.tier == "thorough"
     r = rng.random()
+    if rng.random() < 0.07:
+        # many startpoints: only the approxmc hand-off is exercised (no enumeration by the library)
+        ni = rng.randint(10, 14)
+        cd = G.rand_circuit(rng, ni, rng.randint(3, 9), max_fanin=5, p_wide=0.4, p_const=0.1)
+        nodes = [n for n, _, _ in cd["nodes"]]
+        A = {n: rng.random() < 0.5 for n in rng.sample(nodes, rng.randint(0, 2))}
+        return {"c": cd, "kind": "wide_approx", "assumps": [A], "probes": []}
     if r < 0.08:
         ni = 0
     elif big and r < 0.2:
@@ -129,22 +136,45 @@ def check(case, ctx):
     cg = ctx.cg
     cd = case["c"]
     c = G.build(cg, cd, "graph")
+    nv = len(ctx.violations)
+    decide(case, ctx, c, True)
+    if len(ctx.violations) > nv or case["kind"] == "wide_approx":
+        return
+    multi = sorted(n for n in c.graph.nodes if c.graph.nodes[n].get("type") in G.GATESN)
+    if multi and len(cd["nodes"]) % 4 == 0:
+        # the same Circuit object after an in-place type change: counts must follow the new types
+        g = multi[len(cd["edges"]) % len(multi)]
+        t0 = c.graph.nodes[g]["type"]
+        t1 = G.GATESN[(G.GATESN.index(t0) + 1 + len(cd["edges"])) % len(G.GATESN)]
+        if t1 != t0:
+            c.set_type(g, t1)
+            ctx.count("requery_after_set_type")
+            decide(case, ctx, c, False)
+
+
+def decide(case, ctx, c, first):
+    cg = ctx.cg
+    cd = case["c"]
     net = Net.of(c)
-    ctx.count(f"class:{case['kind']}")
+    if first:
+        ctx.count(f"class:{case['kind']}")
     sp_n = len([n for n, t in net.types.items() if t in ("input", "bb_output")])
     ctx.count(f"startpoints:{sp_n if sp_n < 9 else '9+'}")
     if sp_n < 2 or not any(t in G.GATESN and len(net.preds[n]) > 1 for n, t in net.types.items()):
         ctx.trivial()
-    if len(net.types) > 20:
+    if len(net.types) > (26 if case["kind"] == "wide_approx" else 20):
         ctx.count("skipped:too_large")
         return
     for ai, A in enumerate(case["assumps"]):
         want, sp = brute_count(net, A)
         Aarg = dict(A)
-        ok, got = ctx.call(cg.sat.model_count, c, Aarg)
+        if case["kind"] == "wide_approx":
+            ok, got = True, want  # the library's enumeration is skipped for this class
+        else:
+            ok, got = ctx.call(cg.sat.model_count, c, Aarg)
         if Aarg != A:
             ctx.violation("model_count_mutates_assumptions", f"model_count changed the caller's assumptions dict to {Aarg}")
-        if ai == 0 and sp_n <= 6:
+        if ai == 0 and sp_n <= 6 and case["kind"] != "wide_approx":
             from rv.props._util import repeat_call
 
             repeat_call(ctx, "model_count", f"model_count({A})", cg.sat.model_count, (c, Aarg), {}, (ok, got))
@@ -160,6 +190,8 @@ def check(case, ctx):
         # approxmc hand-off (default, plain-clause mode); one process per call
         if ai > 0 and (hash((ai, len(A), want)) % 3):
             continue
+        if case["kind"] == "wide_approx":
+            ctx.count("approx_with_10plus_startpoints")
         before = set(os.listdir(ctx.logdir))
         ok, got = ctx.call(cg.sat.approx_model_count, c, dict(A))
         new = sorted(f for f in set(os.listdir(ctx.logdir)) - before if f.endswith(".cnf"))
@@ -221,5 +253,5 @@ def check(case, ctx):
 
 
 def gates(counters, table, tier):
-    need = ["class:acyclic", "class:pins", "class:cyclic", "class:no_startpoints", "count_zero", "count_pos", "assume:internal", "dimacs_counted", "prob_mid", "cmp:signal_probability"]
+    need = ["approx_with_10plus_startpoints", "requery_after_set_type", "class:acyclic", "class:pins", "class:cyclic", "class:no_startpoints", "count_zero", "count_pos", "assume:internal", "dimacs_counted", "prob_mid", "cmp:signal_probability"]
     return [f"{k} seen {counters.get(k, 0)} times" for k in need if counters.get(k, 0) < 3]
